@@ -3,10 +3,13 @@
 P: the part of the property that lives in skoolkit's own integer code: the
    stack pre-fill of bin2tap.run (statements taken from the function on every
    run) for all (org, length, stack, start); _get_word; _make_block parity and
-   framing for symbolic data of lengths 0..6.
+   framing for symbolic data of lengths 0..6; the machine code emitted by
+   _get_data_loader / _get_bank_loader executed over the ISA contracts
+   (props/loadervc.py); LoadTracer.fast_load against its contract
+   (props/fastloadvc.py).
 B: bin2tap.main -> tap2sna.main in-process on generated configurations; the
-   ROM's LD-BYTES and the ~10^5 simulated instructions of a LOAD are not a
-   function contract and are only ever observed.
+   ROM's own code (BASIC interpreter, LD-BYTES when fast loading is off) is not
+   a function contract and is only ever observed.
 """
 import ast
 import contextlib
@@ -222,9 +225,13 @@ def run(tier):
     rep = common.Report('C12', tier, 'other', './check C12 --tier %s' % tier)
     rep.trust('pyvc, z3 for the kernels; CPython + skoolkit\'s own simulator for the bounded load-back')
     rep.assume('the ROM routine LD-BYTES and the BASIC interpreter that run during a simulated LOAD are outside any function contract: the end-to-end statement is bounded only')
-    rep.assume('the loader machine code emitted by _get_data_loader/_get_bank_loader is not executed symbolically (program-level executor not built): covered by the bounded load-back only')
+    rep.assume('BASIC loader text (_get_basic_loader) is tokenised BASIC interpreted by the ROM: only the bounded load-back exercises it')
     check_prefill(rep)
     check_small_kernels(rep)
+    from props import loadervc, fastloadvc
+    loadervc.check_data_loader(rep, 'C12')          # the emitted machine-code loader, executed over the ISA contracts
+    loadervc.check_bank_loader(rep, 'C12')          # the 128K bank loader for every subset of banks
+    fastloadvc.check_fast_load(rep, 'C12')          # tap2sna's stand-in for LD-BYTES puts block[1+k] at IX+k
     quick = tier == 'quick'
     n = 32 if quick else 1500
     t0 = time.time()
@@ -240,7 +247,9 @@ def run(tier):
             continue
         seen.add(key)
         rep.violation(key, 'bin2tap %s: %s' % (b[1], b[2]), {'case': {'args': b[1]}, 'observed': b[2]})
-    rep.extra['explanation'] = 'P: stack pre-fill, word/parity kernels for all values; B: end-to-end load-back'
+    rep.extra['explanation'] = ('P: stack pre-fill, word/parity kernels for all values; the machine-code loaders emitted by _get_data_loader and _get_bank_loader '
+                                'executed symbolically over the ISA contracts up to their jumps into LD-BYTES; LoadTracer.fast_load (the LD-BYTES stand-in) against its '
+                                'contract with a loop invariant for the byte loop. B: end-to-end load-back')
     return rep.finish()
 
 
@@ -250,6 +259,34 @@ def replay(path):
         doc = json.load(f)
     case = doc.get('case') or {}
     print('replaying', doc.get('key'), case)
+    if case.get('loader') == 'data':
+        from props import loadervc
+        r = loadervc.replay_data_loader({k: case[k] for k in ('org', 'length', 'start', 'stack')}, '')
+        print(r['diffs'])
+        if r['diffs']:
+            print('VIOLATION property=C12 replay=%s' % path)
+            return 1
+        return 0
+    if case.get('loader') == 'bank':
+        from props import loadervc
+        d = loadervc.concrete_bank_loader(case['banks'], case['loader_addr'], case['start'], case['out7ffd'])
+        print(d)
+        if d:
+            print('VIOLATION property=C12 replay=%s' % path)
+            return 1
+        return 0
+    if 'block' in case and 'regs' in case:
+        from props import fastloadvc
+        d = fastloadvc.concrete_fast_load(case['regs'], case['block'])
+        print(d)
+        if d:
+            print('VIOLATION property=C12 replay=%s' % path)
+            return 1
+        return 0
+    if doc.get('no_failing_input_found'):
+        print(doc.get('what'))
+        print('VIOLATION property=C12 replay=%s no-failing-input-found' % path)
+        return 1
     if 'org' in case:
         d = concrete_prefill(case['org'], case['length'], case['stack'], case['start'])
         print(d)
